@@ -107,6 +107,7 @@ pub fn run_extra(kind: &str, l: &[Sx]) -> String {
         "arity" => arity_case(),
         "serscript" => serscript_case(l),
         "respell" => respell_case(l),
+        "fnhist" => fnhist_case(l),
         "rtext" => rtext_case(l),
         "re" => crate::oracles::re_case(l),
         "relit" => crate::oracles::relit_case(l),
@@ -660,4 +661,75 @@ fn hashclass_case(l: &[Sx]) -> String {
     let classes: Vec<String> = vals.iter().map(|v| (if matches!(v, Value::Array(_)) { "A" } else { "S" }).to_string()).collect();
     let distinct: std::collections::HashSet<u64> = vals.iter().map(h).collect();
     format!("R=classes:{} ## hasheq={} hashes={}", classes.join(""), if ok { "holds" } else { "FAILS" }, distinct.len())
+}
+
+// C19 (oracle only): a history of function registrations in which the SAME native function is registered again and again under spellings of a few names with
+// different arities and purities, interleaved with removals. After every step, for every spelling and every count 0..4, function_exists / list_functions / call must
+// agree with a reference map keyed by the case-folded name that holds the MOST RECENTLY added entry in full (spelling, tag, arity, purity).
+// (fnhist id seed steps)
+fn fnhist_case(l: &[Sx]) -> String {
+    let mut seed: u64 = atom(&l[2]).parse().unwrap();
+    let steps: usize = atom(&l[3]).parse().unwrap();
+    let mut next = move || {
+        seed = seed.wrapping_mul(6364136223846793005).wrapping_add(1442695040888963407);
+        (seed >> 33) as usize
+    };
+    let names = ["f", "F", "gg", "Gg", "GG", "\u{e4}x", "\u{c4}X"];
+    let fns: [slac::stdlib::NativeFunction; 2] = [t0, t1];
+    let arities = [Arity::None, Arity::Variadic, Arity::Polyadic { required: 0, optional: 0 }, Arity::Polyadic { required: 1, optional: 0 }, Arity::Polyadic { required: 2, optional: 0 },
+        Arity::Polyadic { required: 1, optional: 2 }, Arity::Polyadic { required: 0, optional: 1 }];
+    let mut env = StaticEnvironment::default();
+    let mut reference: HashMap<String, (String, usize, usize, bool)> = HashMap::new();
+    let mut ok = true;
+    let mut first_bad = String::new();
+    for step in 0..steps {
+        let n = names[next() % names.len()];
+        if next() % 5 == 0 {
+            let got = env.remove_function(n).map(|f| (f.name.clone(), tag_of_fn(&f) as usize, f.pure));
+            let want = reference.remove(&n.to_lowercase()).map(|(sp, t, _, p)| (sp, t, p));
+            if got != want && ok {
+                ok = false;
+                first_bad = format!("step{}:remove({})", step, n);
+            }
+        } else {
+            // mostly the same pointer, so that an overwrite differs from the stored entry in arity / purity only
+            let t = if next() % 4 == 0 { 1 } else { 0 };
+            let a = next() % arities.len();
+            let p = next() % 2 == 0;
+            let decl = format!("{}()", n);
+            env.add_function(if p { Function::new(fns[t], arities[a], &decl) } else { Function::impure(fns[t], arities[a], &decl) });
+            reference.insert(n.to_lowercase(), (n.to_string(), t, a, p));
+        }
+        for q in names {
+            let want = reference.get(&q.to_lowercase());
+            for cnt in 0..5usize {
+                let got = env.function_exists(q, cnt);
+                let good = match (want, got) {
+                    (None, FunctionResult::NotFound) => true,
+                    (Some((_, _, a, p)), FunctionResult::Exists { pure }) => in_arity(&arities[*a], cnt) && pure == *p,
+                    (Some((_, _, a, _)), FunctionResult::WrongArity { .. }) => !in_arity(&arities[*a], cnt),
+                    _ => false,
+                };
+                if !good && ok {
+                    ok = false;
+                    first_bad = format!("step{}:function_exists({},{})", step, q, cnt);
+                }
+            }
+            let called = env.call(q, &[]).ok().map(|v| show_value(&v));
+            let want_call = want.map(|(_, t, _, _)| show_value(&Value::Number(*t as f64)));
+            if called != want_call && ok {
+                ok = false;
+                first_bad = format!("step{}:call({})", step, q);
+            }
+        }
+        let mut listed: Vec<(String, usize, bool)> = env.list_functions().iter().map(|f| (f.name.clone(), tag_of_fn(f) as usize, f.pure)).collect();
+        let mut wanted: Vec<(String, usize, bool)> = reference.values().map(|(sp, t, _, p)| (sp.clone(), *t, *p)).collect();
+        listed.sort();
+        wanted.sort();
+        if listed != wanted && ok {
+            ok = false;
+            first_bad = format!("step{}:list_functions", step);
+        }
+    }
+    format!("R=steps:{} ## refmap={} first={}", steps, if ok { "holds" } else { "FAILS" }, if first_bad.is_empty() { "-".to_string() } else { first_bad.replace(' ', "_") })
 }
